@@ -39,7 +39,9 @@ Trunc(e) ==          \* a cut of the final file at hdrlen + cut bytes, re-opened
   /\ ReopenOK(e.cut, e.ro_ok, e.ro_ns, e.ro_vals)
   /\ UNCHANGED data
 
-Return(e) ==         \* when the call returns the file is already complete
+Return(e) ==         \* when the call returns the file is already complete - and it is the result (where the harness supplies it:
+                     \* sample extraction, whose result is the input slice itself), not merely a file consistent with itself
+  /\ (H.expect_known => (H.final_isint /\ H.final_vals = H.expect))
   /\ e.size_at_return = H.hdrlen + Len(H.final_data)
   /\ data = H.final_data
   /\ UNCHANGED data
